@@ -366,7 +366,11 @@ def _start_record(node):
         "swarm": w.swarm_id if w is not None else None,
     }
     for k in getattr(ENV.scn, "watch", ()):
-        rec["p_" + k] = params.get(k)
+        if k.endswith("@vm"):
+            # the value as the vm it is applied to sees it
+            rec["p_" + k] = {vm: params.object_params(vm).get(k[:-3]) for vm in params.objects("vms")}
+        else:
+            rec["p_" + k] = params.get(k)
     return rec
 
 
